@@ -146,19 +146,19 @@ Proof.
 Qed.
 
 (* ------------------------------------------------------------------ effective-mass loops (log / logsym / arccosh) *)
-(* guards: None tests, value == 0 tests, one sign test num/den < 0; then expr; the outer function is applied to the
+(* guards: None tests, value == 0 tests, one sign test num/den < 0 (or <= 0 when the flag is set); then expr; the outer function is applied to the
    whole correlator afterwards (np.log, np.log(...)/2, np.arccosh) and maps NaN to undefined *)
-Record mstencil := mkMStencil { ms_lo : Z; ms_hi : Z; ms_none : list Z; ms_zero : list Z; ms_sign : option (Z * Z);
+Record mstencil := mkMStencil { ms_lo : Z; ms_hi : Z; ms_none : list Z; ms_zero : list Z; ms_sign : option (Z * Z * bool);
                                 ms_expr : sexpr; ms_pad : Z * Z }.
 Definition mstep_at (s : mstencil) (c : content) (t : Z) : slot :=
   if existsb (fun k => is_none c (t + k)) (ms_none s) then SNone
   else if existsb (fun k => is_none c (t + k)) (ms_zero s) then SRaise
   else if existsb (fun k => Qeqb (cval c (t + k)) 0) (ms_zero s) then SNone
   else match ms_sign s with
-       | Some (a, b) =>
+       | Some (a, b, nonstrict) =>
            if is_none c (t + a) || is_none c (t + b) then SRaise
            else if Qeqb (cval c (t + b)) 0 then SRaise
-           else if Qltb (cval c (t + a) / cval c (t + b)) 0 then SNone
+           else if (if nonstrict then Qleb (cval c (t + a) / cval c (t + b)) 0 else Qltb (cval c (t + a) / cval c (t + b)) 0) then SNone
            else if existsb (fun k => is_none c (t + k)) (refs (ms_expr s)) then SRaise
            else SVal (Qred (eval (cval c) t (ms_expr s)))
        | None =>
@@ -176,7 +176,7 @@ Definition mrun (s : mstencil) (c : content) : outcome :=
 
 Definition mstencil_ok (s : mstencil) : bool :=
   incl_b (refs (ms_expr s)) (ms_none s) && incl_b (ms_zero s) (ms_none s)
-  && match ms_sign s with Some (a, b) => existsb (Z.eqb a) (ms_none s) && existsb (Z.eqb b) (ms_none s) && existsb (Z.eqb b) (ms_zero s) | None => true end
+  && match ms_sign s with Some (a, b, _) => existsb (Z.eqb a) (ms_none s) && existsb (Z.eqb b) (ms_none s) && existsb (Z.eqb b) (ms_zero s) | None => true end
   && Z.eqb (fst (ms_pad s)) (ms_lo s) && Z.eqb (snd (ms_pad s)) (ms_hi s).
 
 Theorem mguarded_never_raises s c t : mstencil_ok s = true -> mstep_at s c t <> SRaise.
@@ -191,7 +191,7 @@ Proof.
   assert (NZ : existsb (fun k => is_none c (t + k)) (ms_zero s) = false).
   { destruct (existsb _ (ms_zero s)) eqn:R; [|reflexivity]. apply (existsb_incl _ _ _ Hsub2) in R. congruence. }
   rewrite NZ. destruct (existsb (fun k => Qeqb (cval c (t + k)) 0) (ms_zero s)) eqn:Z0; [discriminate|].
-  destruct (ms_sign s) as [[a b]|].
+  destruct (ms_sign s) as [[[a b] nonstrict]|].
   - match goal with H : _ && _ && _ = true |- _ => apply andb_true_iff in H; destruct H as [H Hbz]; apply andb_true_iff in H; destruct H as [Ha Hb] end.
     assert (Na : is_none c (t + a) = false).
     { apply existsb_exists in Ha. destruct Ha as [x [Hx E]]. apply Z.eqb_eq in E. subst x.
@@ -206,7 +206,7 @@ Proof.
     { apply existsb_exists in Hbz. destruct Hbz as [x [Hx E]]. apply Z.eqb_eq in E. subst x.
       destruct (Qeqb (cval c (t + b)) 0) eqn:N; [|reflexivity]. exfalso.
       assert (existsb (fun k => Qeqb (cval c (t + k)) 0) (ms_zero s) = true) by (apply existsb_exists; exists b; auto). congruence. }
-    rewrite Zb. destruct (Qltb _ 0); [discriminate|]. rewrite NR. discriminate.
+    rewrite Zb. destruct (if nonstrict then _ else _); [discriminate|]. rewrite NR. discriminate.
   - rewrite NR. discriminate.
 Qed.
 
@@ -230,7 +230,7 @@ Definition stencil_same_shape (a b : stencil) : bool :=
   && Z.eqb (fst (st_pad a)) (fst (st_pad b)) && Z.eqb (snd (st_pad a)) (snd (st_pad b)).
 Definition mstencil_same_shape (a b : mstencil) : bool :=
   Z.eqb (ms_lo a) (ms_lo b) && Z.eqb (ms_hi a) (ms_hi b) && set_eqb (ms_none a) (ms_none b) && set_eqb (ms_zero a) (ms_zero b)
-  && match ms_sign a, ms_sign b with Some (x, y), Some (u, v) => Z.eqb x u && Z.eqb y v | None, None => true | _, _ => false end
+  && match ms_sign a, ms_sign b with Some (x, y, p), Some (u, v, q) => Z.eqb x u && Z.eqb y v && Bool.eqb p q | None, None => true | _, _ => false end
   && Z.eqb (fst (ms_pad a)) (fst (ms_pad b)) && Z.eqb (snd (ms_pad a)) (snd (ms_pad b)).
 
 (* outer function applied to the whole correlator afterwards: NaN (argument outside the real domain) -> undefined *)
